@@ -22,12 +22,39 @@ GEN = ["ctx.*"]
 ALL_REPL = ["vclock", "gcounter", "pncounter", "gset", "maxreg", "minreg", "lww", "mvreg", "orswot",
             "mapmv", "mapor", "mapmm", "glist", "list", "merkle"]
 
+
+API_GEN = ["ctx.*", "*.add", "*.add_all", "*.rm", "*.rm_all", "*.write", "*.update", "*.update.closure",
+           "*.inc", "*.dec", "*.inc_many", "*.dec_many", "*.insert", "*.insert_after", "*.insert_before",
+           "*.insert_index", "*.append", "*.delete_index"]
+READS = ["*.read", "*.read_ctx", "*.contains", "*.iter", "*.get", "*.keys", "*.values", "*.len", "*.is_empty",
+         "*.clock", "*.position", "*.num_nodes", "*.num_orphans", "*.node", "*.children", "*.parents"]
+
+
+def P(types, footprint, quick=400, thorough=20000, streams=("structured", "malformed"), all_inputs=False, extra_tb=(), extra_as=(), undischarged=()):
+    return dict(types=list(types), streams=list(streams), all_inputs=all_inputs, footprint=list(footprint),
+                quick_cases=quick, thorough_cases=thorough, trusted_base=TB_COMMON + list(extra_tb),
+                assumptions=AS_COMMON + list(extra_as), undischarged=list(undischarged))
+
+
 PROPS = {
-    "C10": dict(
-        types=["vclock"], streams=["structured", "malformed"], all_inputs=True,
-        footprint=["vclock.*", "dot.*"],
-        quick_cases=600, thorough_cases=20000,
-        trusted_base=TB_COMMON,
-        assumptions=AS_COMMON + ["clocks are well-formed (no stored zero): proved to be preserved by every API call; a stored zero is only constructible through the public field"],
-    ),
+    "C04": P(["orswot"], ["orswot.apply", "orswot.merge", "orswot.validate_op"] + ["orswot." + r[2:] for r in READS] + ["orswot.add", "orswot.add_all", "orswot.rm", "orswot.rm_all", "ctx.*"],
+             extra_as=["each actor's adds are delivered in issue order (the documented contract); removes in any order",
+                       "ops are generated through the public API from reads of the generating replica"]),
+    "C06": P(["mvreg"], ["mvreg.apply", "mvreg.merge", "mvreg.read", "mvreg.read_ctx", "mvreg.write", "ctx.*"],
+             extra_as=["writes are generated through the API with the context of a read; no delivery-order assumption"]),
+    "C10": P(["vclock"], ["vclock.*", "dot.*"], quick=600, all_inputs=True,
+             extra_as=["clocks are well-formed (no stored zero): proved to be preserved by every API call; a stored zero is only constructible through the public field"]),
+    "C11": P(["gcounter", "pncounter", "gset", "maxreg", "minreg", "lww"],
+             ["gcounter.apply", "gcounter.merge", "gcounter.inc", "gcounter.inc_many", "gcounter.read",
+              "pncounter.apply", "pncounter.merge", "pncounter.inc", "pncounter.dec", "pncounter.inc_many", "pncounter.dec_many", "pncounter.read",
+              "gset.*", "maxreg.*", "minreg.*", "lww.apply", "lww.merge", "lww.validate_op", "lww.validate_merge"],
+             extra_as=["LWWReg: markers are unique (the same marker is never written with two values) for the convergence clause"]),
+    "C13": P(["list", "glist"], ["list.*", "glist.*", "ident.*"], all_inputs=True,
+             extra_as=["states satisfy the representation invariant (strictly sorted, no empty identifier): proved for every state reachable by applying ops with non-empty identifiers; the API never produces an empty identifier"]),
+    "C14": P(["glist"], ["ident.*"], all_inputs=True, quick=1500,
+             extra_tb=["BigRational modelled as Coq's Qc (canonical rationals); num-rational arithmetic trusted"],
+             extra_as=["the marker type's Ord is a total order consistent with equality (proved for u64 and OrdDot)"]),
+    "C15": P(["merkle"], ["merkle.*"], all_inputs=True,
+             extra_tb=["SHA3-256 content addressing modelled as an arbitrary injective function (premise of the theorems, no axiom); the driver maps real hashes to fresh model hashes"],
+             extra_as=["distinct nodes have distinct hashes (collision-freedom of SHA3)"]),
 }
